@@ -5,6 +5,7 @@ R14.1  the discriminated path is exact: a present discriminator with a mapped va
        `property in data` (a null discriminator is a value, not absence)
 R14.2  first-success loops are lossless only if extra keys are rejected                      [finding on the pinned tree]
 R14.3  Union[...] is rendered in spec order with order-preserving de-duplication
+R14.10 the IR's discriminator mapping is the document's mapping, unfiltered (bare-name values and foreign refs included)
 R14.9  every loop of _structure_union that tries variants iterates them in the order of get_args(union) (no sorted / reversed / set view)
 R14.8  DiscriminatorEnumCollector consults the discriminator mapping on every path to 'skip this variant' (must-pass-through)
 R14.7  named union / array members are expanded to their underlying type only when they are primitive aliases (decision evaluated over the `type` domain)
@@ -249,6 +250,7 @@ def run(repo: Repo, rep: Report, tier: str) -> None:
     rule_underlying_only_for_primitives(repo, rep, "R14.7")
     rule_mapping_fallback(repo, rep, "R14.8")
     rule_declared_order(repo, rep, "R14.9")
+    rule_mapping_parsed_whole(repo, rep, "R14.10")
 
     # ---------------------------------------------------------------- R14.4 alias keeps discriminator metadata
     ra = repo.func("core.writers.python_construct_renderer:PythonConstructRenderer.render_alias")
@@ -512,3 +514,46 @@ def rule_declared_order(repo: Repo, rep: Report, rule: str = "R14.9") -> None:
             rep.violation(rule, f"{su0.module.relpath}:_structure_union `{norm(c)[:40]}`", f"{su0.fq}|variants-reordered|{c.func.attr}",
                           f"`{norm(c)[:60]}` re-orders the variant list in place: variants are no longer tried in declared order", su0.loc(c))
     rep.require(n >= 3, f"{rule}: only {n} loops over the union members found in _structure_union (floor 3)")
+
+
+# ------------------------------------------------------------------------------------------------ R14.10 the parsed mapping is the spec's mapping
+def rule_mapping_parsed_whole(repo: Repo, rep: Report, rule: str = "R14.10") -> None:
+    """The discriminator mapping of the IR is the document's mapping, entry for entry: OpenAPI allows a mapping value to be a `$ref` *or*
+    a bare schema name, and values may point at schemas that are not spelled identically in `oneOf`.  Wherever `IRDiscriminator(mapping=...)`
+    is built, the value is a copy of `<discriminator node>["mapping"]` - no filtering comprehension, no key/value test: a dropped entry
+    turns "variant chosen by the value" into first-match guessing and makes its value look unmapped."""
+    n = 0
+    live = set(repo.import_closure(["generator.client_generator"]))
+    for mn in sorted(live):
+        if not mn.startswith(("pyopenapi_gen.core.parsing", "pyopenapi_gen.core.loader")):
+            continue
+        mod = repo.modules[mn]
+        for q, fn in mod.functions.items():
+            for c in calls_in(fn.node):
+                if (dotted(c.func) or "").split(".")[-1] != "IRDiscriminator":
+                    continue
+                mv = next((k.value for k in c.keywords if k.arg == "mapping"), None)
+                if mv is None:
+                    continue
+                n += 1
+                L = Locals(fn.node)
+                vals = [mv]
+                if isinstance(mv, ast.Name):
+                    vals = [v for k, v, _ in L.defs.get(mv.id, []) if v is not None and not (isinstance(v, ast.Constant) and v.value is None)]
+                sub = f"{mod.relpath}:{q} IRDiscriminator(mapping=…)"
+                bad = None
+                for v in vals:
+                    vi = L.inline(v, stop=tuple(L.params))
+                    filt = [x for x in ast.walk(vi) if isinstance(x, ast.comprehension) and x.ifs] or [x for x in ast.walk(vi) if isinstance(x, ast.Call) and dotted(x.func) == "filter"]
+                    from_doc = any(isinstance(x, ast.Subscript) and const_str(x.slice) == "mapping" for x in ast.walk(vi)) or any(
+                        isinstance(x, ast.Call) and isinstance(x.func, ast.Attribute) and x.func.attr == "get" and x.args and const_str(x.args[0]) == "mapping" for x in ast.walk(vi))
+                    if filt:
+                        bad = f"`{norm(v)[:70]}` filters the entries"
+                    elif not from_doc:
+                        bad = f"`{norm(v)[:70]}` is not taken from the discriminator node's `mapping`"
+                if bad:
+                    rep.violation(rule, sub, f"{fn.fq}|mapping-not-whole", f"{bad}: a discriminator value whose entry is dropped is decoded by first-match guessing (or rejected as unmapped) "
+                                  "instead of as the variant the document maps it to - e.g. every entry written as a bare schema name", fn.loc(c))
+                else:
+                    rep.ok(rule, sub, "the IR mapping is a copy of the document's `discriminator.mapping` (no entry is filtered out)", fn.loc(c))
+    rep.require(n >= 1, f"{rule}: no IRDiscriminator(mapping=...) construction found in the parser (anchor)")
